@@ -4,7 +4,13 @@ worktree of /repo (never to /repo itself), and records which check / clause dete
 usage: tools/run_seeded.py [--all-checks] [ids...]"""
 import json, os, subprocess, sys, re
 V = os.path.dirname(os.path.dirname(os.path.abspath(__file__)))
-WT = "/tmp/seedrun/wt"
+RUNDIR = "/tmp/seedrun-%d" % os.getpid()
+WT = RUNDIR + "/wt"
+outjson = None
+if "--out" in sys.argv:
+    k = sys.argv.index("--out")
+    outjson = sys.argv[k + 1]
+    del sys.argv[k:k + 2]
 args = [a for a in sys.argv[1:] if not a.startswith("--")]
 allchecks = "--all-checks" in sys.argv
 ids = args or sorted(os.listdir(V + "/seeded"))
@@ -12,10 +18,10 @@ ids = [i for i in ids if os.path.isdir(V + "/seeded/" + i)]
 claimed = [c["property_id"] for c in json.load(open(V + "/MANIFEST.json"))["checks"]]
 subprocess.run(["git", "-C", "/repo", "worktree", "prune"])
 if not os.path.isdir(WT):
-    os.makedirs("/tmp/seedrun", exist_ok=True)
+    os.makedirs(RUNDIR, exist_ok=True)
     subprocess.run(["git", "-C", "/repo", "worktree", "add", "--detach", WT, "HEAD", "-q"], check=True)
 env = dict(os.environ)
-env.update({"VERIF_REPO": WT, "VERIF_EVIDENCE_DIR": "/tmp/seedrun/evidence", "VERIF_REPLAY_DIR": "/tmp/seedrun/replays", "VERIF_RUNS_SCALE": os.environ.get("VERIF_RUNS_SCALE", "0.5"), "VERIF_ALT_DIR": "/tmp/seedrun/sim"})
+env.update({"VERIF_REPO": WT, "VERIF_EVIDENCE_DIR": RUNDIR + "/evidence", "VERIF_REPLAY_DIR": RUNDIR + "/replays", "VERIF_RUNS_SCALE": os.environ.get("VERIF_RUNS_SCALE", "0.5"), "VERIF_ALT_DIR": RUNDIR + "/sim"})
 rows = []
 for i in ids:
     d = V + "/seeded/" + i
@@ -42,7 +48,9 @@ for i in ids:
     rows.append((i, prop, ", ".join("%s:%s" % (x["check"], x["clause"]) for x in det) or "NOT DETECTED", ""))
 subprocess.run(["git", "-C", "/repo", "worktree", "remove", "--force", WT])
 import shutil
-shutil.rmtree("/tmp/seedrun", ignore_errors=True)
+shutil.rmtree(RUNDIR, ignore_errors=True)
+if outjson:
+    json.dump([{"id": i, "property": p, "detected": d} for i, p, d, _ in rows], open(outjson, "w"), indent=1)
 with open(V + "/seeded/RESULTS.md", "w") as f:
     f.write("| seeded change | breaks | detected by (check:clause) |\n|---|---|---|\n")
     for i, p, dtxt, _ in rows:
